@@ -109,6 +109,23 @@ fn prim_result(parts: &[&str]) -> String {
                 d.set(&b(parts[4]));
                 format!("ok {} priv={}", hex(d.pubkey()), hex(d.privkey()))
             },
+            "dhseq" => {
+                // ONE Dh object used twice: set(k1), then generate() drawing k2 from a scripted source (and, in the
+                // other order, set(k2) after generate() drew k1): key pair and DH must be those of the LAST key
+                let Some(mut d) = dh_choice(parts[3]).and_then(|c| r.resolve_dh(&c)) else { return "none".into() };
+                let (k1, k2, peer) = (b(parts[4]), b(parts[5]), b(parts[6]));
+                let mut out = [0u8; 65];
+                let mut res = vec![];
+                d.set(&k1);
+                let mut rng = crate::toy::ScriptedRng::new(k2.clone(), crate::toy::new_log());
+                d.generate(&mut rng);
+                res.push(format!("{} {}", hex(d.pubkey()), match d.dh(&peer, &mut out) { Ok(()) => hex(&out[..d.dh_len()]), Err(e) => format!("err{e:?}") }));
+                let mut rng = crate::toy::ScriptedRng::new(k1.clone(), crate::toy::new_log());
+                d.generate(&mut rng);
+                d.set(&k2);
+                res.push(format!("{} {}", hex(d.pubkey()), match d.dh(&peer, &mut out) { Ok(()) => hex(&out[..d.dh_len()]), Err(e) => format!("err{e:?}") }));
+                format!("ok {}", res.join(" "))
+            },
             "dh" => {
                 let Some(mut d) = dh_choice(parts[3]).and_then(|c| r.resolve_dh(&c)) else { return "none".into() };
                 d.set(&b(parts[4]));
@@ -299,6 +316,13 @@ pub fn gen_prim(run: &mut Run, seed: u64, thorough: bool, light: bool) {
                     sc.viol("C18", format!("{res} {d}: DH does not commute: {s1} / {s2}"));
                 }
                 pubs.push(pa);
+            }
+            // one Dh object, two keys in a row (set then generate, generate then set)
+            if let Some(p) = pubs.first() {
+                for _ in 0..3 {
+                    let (k1, k2) = (r.bytes(32), r.bytes(32));
+                    prim(&mut sc, format!("prim {res} dhseq {d} {} {} {}", hex(&k1), hex(&k2), hex(p)));
+                }
             }
             // edge public keys
             let a = r.bytes(32);
